@@ -388,7 +388,7 @@ Record pobs : Type := PO {
   po_flags : list string;
   po_hook : list hrec }.          (* empty when the harness is built without the hook: `(hook off)` *)
 
-Inductive robs : Type := RParse (p : pobs) | RHang | ROther.
+Inductive robs : Type := RParse (p : pobs) | RHang | RAbort | ROther.
 
 Definition dec_range (x : sx) : option (bool * srange) :=
   match x with
@@ -418,6 +418,7 @@ Definition dec_hook (h : list sx) : option (list hrec) :=
 Definition dec_obs (x : sx) : robs :=
   match x with
   | Lx [Ax "hang"] => RHang
+  | Lx [Ax "abort"; Zx _] => RAbort            (* the harness process died (signal / abort): reported by the driver *)
   | Lx [Ax "parse"; Ax tg; Zx same; Lx (Ax "ranges" :: rs); Zx n; Lx (Ax "linelens" :: ls);
         Lx (Ax "linewidths" :: ws); Lx (Ax "flags" :: fl); Lx (Ax "info" :: _); Lx (Ax "hook" :: hk)] =>
       match dec_tag tg, map_opt dec_range rs, map_opt sx_Z ls, map_opt sx_Z ws, map_opt sx_word fl, dec_hook hk with
@@ -479,6 +480,18 @@ Definition kf_exp_nesting (text : string) : bool := Nat.leb nest_threshold (nest
 Definition fmt_shown (nerr : Z) : Z := Z.min nerr 10.
 Definition fmt_count (text : string) (nerr : Z) : Z := (byte_lenZ text - fmt_shown nerr)%Z.
 Definition kf_fmt_underflow (text : string) (nerr : Z) : bool := (fmt_count text nerr <? 0)%Z.
+
+(* stack-overflow-prefix-run: a run of prefix operators / kind brackets: negate_factor, not_factor and kind_annotation
+   recurse once per character; the longest run of bytes among '-' '!' '<' *)
+Definition is_prefix_op (n : nat) : bool := Nat.eqb n 45 || Nat.eqb n 33 || Nat.eqb n 60.
+Fixpoint run_from (cur m : nat) (s : string) : nat :=
+  match s with
+  | EmptyString => m
+  | String c r => if is_prefix_op (nat_of_ascii c) then run_from (S cur) (Nat.max m (S cur)) r else run_from 0 m r
+  end.
+Definition max_prefix_run (s : string) : nat := run_from 0 0 s.
+Definition run_threshold : nat := 400.
+Definition kf_stack_run (text : string) : bool := Nat.leb run_threshold (max_prefix_run text).
 
 (* fenced code blocks: a fence sigil and a tag *)
 Definition has_fence (text : string) : bool := contains "```" text || contains "~~~" text.
@@ -554,7 +567,12 @@ Definition judge_parse (text : string) (o : robs) : sx :=
       if kf_mika_close text then v_kf "mika-close-loop"
       else if kf_exp_nesting text then v_kf "exp-nesting"
       else v_bad "parser-did-not-return-within-budget" (Ax "ok-or-err")
-  | ROther => v_bad "unreadable-or-aborted" (Ax "ok-or-err")
+  | RAbort =>
+      (* the unbounded loop also exhausts memory when the budget is long enough *)
+      if kf_mika_close text then v_kf "mika-close-loop"
+      else if kf_stack_run text then v_kf "stack-overflow-prefix-run"
+      else v_bad "process-aborted" (Ax "ok-or-err")
+  | ROther => v_bad "unreadable-observation" (Ax "ok-or-err")
   | RParse p =>
       match po_tag p with
       | TgPanic =>
